@@ -71,6 +71,18 @@ impl Fail {
             "InvalidInput" | "NotSupported" | "SchemaMismatch" | "Schema" | "Arrow"
         )
     }
+    /// class + head of the message + its tail (panic location) — for diagnostic histograms
+    pub fn key(&self) -> String {
+        let m = self.msg();
+        let n = m.chars().count();
+        if n <= 170 {
+            format!("{}: {}", self.class(), m)
+        } else {
+            let head: String = m.chars().take(110).collect();
+            let tail: String = m.chars().skip(n - 60).collect();
+            format!("{}: {} … {}", self.class(), head, tail)
+        }
+    }
     pub fn brief(&self) -> String {
         let m = self.msg();
         let m: String = m.chars().take(300).collect();
